@@ -97,6 +97,12 @@ func (g *gen) richInit(code string) string {
 	sv := func(sc string) string {
 		switch sc {
 		case "str", "c1", "c2", "c3":
+			if sc == "str" && g.r.Intn(25) == 0 {
+				// a value that makes the written line about as long as, or longer than, any buffer
+				// a reader is likely to use (4 KiB, 8 KiB, 64 KiB)
+				n := []int{4050 + g.r.Intn(60), 4096, 8150 + g.r.Intn(80), 12000, 65536 + g.r.Intn(20)}[g.r.Intn(5)]
+				return "s:" + hx(strings.Repeat("long value ", n/11+1)[:n])
+			}
 			return "s:" + hx(richStrings[g.r.Intn(len(richStrings))])
 		case "c0":
 			return "s:" + hx(asciiUpper(richStrings[g.r.Intn(len(richStrings))]))
@@ -594,13 +600,13 @@ func checkC14(c *Ctx, n int) {
 			k := 0
 			for li, l := range lines {
 				if c.Rng.Intn(3) == 0 && !(li > 0 && false) {
-					with = append(with, fmt.Sprintf("zzNoSuchOption%d = %d", k, k))
+					with = append(with, fmt.Sprintf("%s = %d", unknownIniName(c, k), k))
 					k++
 				}
 				with = append(with, l)
 			}
 			if c.Rng.Intn(2) == 0 {
-				with = append(with, "zzNoSuchOptionLast = 1")
+				with = append(with, unknownIniName(c, 99)+" = 1")
 				k++
 			}
 			if c.Rng.Intn(3) == 0 {
@@ -747,7 +753,7 @@ func checkC14(c *Ctx, n int) {
 					}
 				}
 				if real.p.Options&flags.IgnoreUnknown == 0 {
-					cands = append(cands, "zzNoSuchOption = 1")
+					cands = append(cands, "zzNoSuchOption = 1", unknownIniName(c, 0)+" = 1")
 				}
 				if len(cands) > 0 {
 					bad = cands[c.Rng.Intn(len(cands))]
@@ -773,6 +779,20 @@ func checkC14(c *Ctx, n int) {
 			})
 		}
 	}
+}
+
+// unknownIniName: a key no option of any generated declaration answers to (no field, long, short or
+// ini-name of the generator is spelled like this; a control byte is not a short name)
+func unknownIniName(c *Ctx, k int) string {
+	switch c.Rng.Intn(6) {
+	case 0:
+		return "\x00"
+	case 1:
+		return []string{"\x00\x00", "\x01", "\x7f", "zz\x00"}[c.Rng.Intn(4)]
+	case 2:
+		return fmt.Sprintf("zz no such %d", k)
+	}
+	return fmt.Sprintf("zzNoSuchOption%d", k)
 }
 
 // iniKind: "ok", "ini", "flags" ... from an "INI <kind> ..." observation line ("" when there is none:
